@@ -46,7 +46,7 @@ def one_case(rng, tier):
 
 
 def generate(rng, tier):
-    n = 2000 if tier == "quick" else 40000
+    n = 4000 if tier == "quick" else 50000
     cases = [one_case(rng, tier) for _ in range(n)]
     info = {"rule": "ordered pairs biased to concatenations of ranges / Sigma* / loops / unions / complements on either side (rigid prefix, rigid suffix, left-to-right and right-to-left passes), plus random pairs; included_in both ways, then the union (pruned by the same test) with membership of all words <= k; non-trivial = both sides have an operator",
             "distribution": {"cases": n}}
